@@ -37,8 +37,10 @@ SPEC = dict(
           "MinSuccesses in 1..N, read-only swarm sharing them in 1/3 of the runs, 2-4 real targets (one public IPv4, one "
           "public IPv6, others drawn; optional second listening IP) on TCP+QUIC, initial environment and 4-22 operations "
           "(DialPeer of a target with a drawn subset of its live addresses plus 0-2 dead ones of drawn class; toggle of the "
-          "UDP or the IPv6 black hole; read-only DialPeer / CanDial), drawn settle time, then heal and 2N+2 single-address "
-          "dials per detector. non-trivial = at least one request and one "
+          "UDP or the IPv6 black hole; read-only DialPeer / CanDial), drawn settle time, drawn per run what a dial leaves "
+          "behind (dial back-off kept 1/3, peerstore addresses of earlier dials kept 1/3, a quarter of the connections left "
+          "open 1/3; no warm-up: the first dial is inside a black hole when the drawn initial environment has one), then heal "
+          "and 2N+2 single-address dials per detector. non-trivial = at least one request and one "
           "recorded outcome concerned a configured detector (counter/swarm) or the sweep completed (exhaustive); "
           "distinct = distinct event history (requests, per-address observations, dial outcomes, sampled states)"),
     probes=["blocked-reached", "request-refused-while-blocked", "probe-pass-while-blocked", "cleared-by-success",
@@ -49,7 +51,8 @@ SPEC = dict(
             "exhaustive-sweep",
             "system-blocked-reached", "system-address-refused", "system-request-refused", "system-probe-let-through-while-blocked",
             "system-cleared-by-success", "system-healed-after-refusals", "system-uncertain-outcome", "system-udp-black-hole-on",
-            "system-read-only-refused", "system-read-only-passed"],
+            "system-read-only-refused", "system-read-only-passed", "system-existing-connection-returned",
+            "system-probe-slot-spent-on-backoff"],
     real=["p2p/net/swarm (Swarm, dial worker, dial sync, limiter, backoff, black hole detector, BlackHoleSuccessCounter)",
           "p2p/host/peerstore/pstoremem", "p2p/host/eventbus",
           "system stratum: p2p/transport/tcp dial path, p2p/net/upgrader, noise, yamux, p2p/transport/quic, quicreuse, quic-go v0.59 "
